@@ -13,6 +13,71 @@ import itertools
 from fractions import Fraction
 
 import z3
+import threading as _threading
+
+
+# --------------------------------------------------------------------------- solver watchdog
+# z3's own 'timeout' is not honoured inside some nlsat / simplifier loops; a daemon thread interrupts the context when a check
+# overruns its budget by a wide margin, so that the call returns 'unknown' (inconclusive) instead of hanging the job.
+class _Watchdog:
+    def __init__(self):
+        self.deadline = None
+        self.fired = 0
+        self.started = False
+        self.lock = _threading.Lock()
+
+    def start(self):
+        if self.started and getattr(self, 'pid', None) == os.getpid():
+            return
+        self.started, self.pid = True, os.getpid()
+        t = _threading.Thread(target=self.run, daemon=True)
+        t.start()
+
+    def run(self):
+        while True:
+            time.sleep(0.25)
+            d = self.deadline
+            if d is not None and time.time() > d:
+                self.fired += 1
+                self.deadline = time.time() + 5.0   # re-fire until the call returns
+                try:
+                    z3.main_ctx().interrupt()
+                except Exception:
+                    pass
+
+
+WATCHDOG = _Watchdog()
+_orig_solver_check = z3.Solver.check
+_orig_solver_set = z3.Solver.set
+
+
+def _guarded_set(self, *args, **kw):
+    try:
+        if len(args) >= 2 and args[0] == 'timeout':
+            self._sx_tmo = int(args[1])
+        if 'timeout' in kw:
+            self._sx_tmo = int(kw['timeout'])
+    except Exception:
+        pass
+    return _orig_solver_set(self, *args, **kw)
+
+
+def _guarded_check(self, *a):
+    tmo = getattr(self, '_sx_tmo', None)
+    if tmo is None or tmo <= 0 or tmo > 10 ** 8:
+        tmo = int(os.environ.get('SYMX_DEFAULT_HARD_MS', '600000'))
+    WATCHDOG.start()
+    WATCHDOG.deadline = time.time() + 1.5 * tmo / 1000.0 + 5.0
+    try:
+        return _orig_solver_check(self, *a)
+    except z3.Z3Exception:
+        return z3.unknown
+    finally:
+        WATCHDOG.deadline = None
+
+
+z3.Solver.check = _guarded_check
+z3.Solver.set = _guarded_set
 
 try:
     import numpy as _np
@@ -862,7 +927,7 @@ class Explorer:
         _cache[k] = (t, out)
         return out
 
-    def _sliced_check(self, term, cons):
+    def _sliced_check(self, term, cons, timeout_ms=None, only_if_smaller=False):
         want = set(self._vars_of(term))
         for c in cons:
             want |= self._vars_of(c)
@@ -877,8 +942,10 @@ class Explorer:
                     if not vs <= want:
                         want |= vs
                     changed = True
+        if only_if_smaller and sum(chosen) * 4 > len(items) * 3:
+            return 'unknown', None      # no real reduction: leave it to the incremental solver
         s2 = z3.Solver()
-        s2.set('timeout', self.timeout_ms)
+        s2.set('timeout', timeout_ms or self.timeout_ms)
         s2.add(*[c for (c, _), ch in zip(items, chosen) if ch])
         s2.add(*cons)
         t0 = time.time()
@@ -1052,6 +1119,13 @@ class Explorer:
             r = self._check(cond)
         finally:
             self.solver.set('timeout', self.timeout_ms)
+        if r == 'unknown' and not getattr(self, 'fp_mode', False) and not getattr(self, 'str_mode', False):
+            # independence slicing (see concretize): only the constraints connected to the condition through shared variables matter
+            r2, _m = self._sliced_check(cond, [cond], timeout_ms=min(self.branch_ms, 400), only_if_smaller=True)
+            if r2 in ('sat', 'unsat'):
+                self.stats.q_unknown -= 1
+                self.stats.sliced = getattr(self.stats, 'sliced', 0) + 1
+                return r2
         if r == 'unknown':
             # undecided within the branch budget: explore the side anyway (a superset of the feasible paths is sound:
             # obligations on an infeasible path are vacuous, and a counterexample always comes with a model)
@@ -1126,22 +1200,18 @@ class Explorer:
         if len(excl) >= self.max_concretize:
             raise BoundExceeded('concretisation of %s needs more than %d values' % (term, self.max_concretize))
         cons = [term != v for v in excl]
-        r = self._check(*cons)
+        # the value of `term` usually depends on a small part of the path condition only: decide on the connected component of
+        # constraints sharing variables with it (exact whenever the remaining, variable-disjoint part is satisfiable - the path was
+        # judged feasible when its last branch was taken; if that part is unsatisfiable after all, the path is vacuous and any
+        # obligation on it holds trivially, counter-examples are replayed anyway)
+        r, m = self._sliced_check(term, cons)
         if r == 'unsat':
             raise Abort()
-        m = None
-        if r == 'sat' and os.environ.get('SYMX_FORCE_SLICE'):   # self-test of the fallback below
-            r = 'unknown'
-            self.stats.q_unknown += 1
-            self.stats.q_sat -= 1
-        if r == 'unknown':
-            # the value of `term` usually depends on a small part of the path condition only: decide on the connected component of
-            # constraints sharing variables with it (exact whenever the remaining, variable-disjoint part is satisfiable; if that part
-            # is unsatisfiable the path is vacuous and any obligation on it holds trivially, counter-examples are replayed anyway)
-            r, m = self._sliced_check(term, cons)
-            if r in ('sat', 'unsat'):
-                self.stats.q_unknown -= 1
-                self.stats.sliced = getattr(self.stats, 'sliced', 0) + 1
+        if r == 'sat':
+            self.stats.sliced = getattr(self.stats, 'sliced', 0) + 1
+        else:
+            r = self._check(*cons)
+            m = None
             if r == 'unsat':
                 raise Abort()
         if r == 'unknown':
